@@ -159,22 +159,25 @@ var _ = binary.LittleEndian
 // H04agree: the concrete small file with a stored header CRC of 0 ("not
 // computed") or the computed one (arbitrary choice), file CRC over the bytes
 // as stored: every entry point accepts it, in particular CheckIntegrity
-// accepts what Decode accepts.
+// accepts what Decode accepts, also when the reader returns short reads
+// (parameter chunk; 0 = as much as asked).
 func H04agree() {
 	file := vSmallFile()
+	chunk := vParam("chunk")
+	rd := func() *vReader { return &vReader{data: file, chunk: chunk, failAt: -1} }
 	if vBool() {
 		file[12], file[13] = 0, 0
 		fc := dyncrc16.Checksum(file[:len(file)-2])
 		file[len(file)-2], file[len(file)-1] = byte(fc), byte(fc>>8)
 	}
-	f, err := Decode(bytes.NewReader(file))
+	f, err := Decode(rd())
 	vAssert(err == nil && f != nil, "C04.agree.decode-accepts")
-	vAssert(CheckIntegrity(bytes.NewReader(file), false) == nil, "C04.agree.checkintegrity-accepts-what-decode-accepts")
-	vAssert(CheckIntegrity(bytes.NewReader(file), true) == nil, "C04.agree.checkintegrity-header-accepts")
-	h, herr := DecodeHeader(bytes.NewReader(file))
+	vAssert(CheckIntegrity(rd(), false) == nil, "C04.agree.checkintegrity-accepts-what-decode-accepts")
+	vAssert(CheckIntegrity(rd(), true) == nil, "C04.agree.checkintegrity-header-accepts")
+	h, herr := DecodeHeader(rd())
 	vAssert(herr == nil, "C04.agree.decodeheader-accepts")
 	vAssert(h.CheckIntegrity() == nil, "C04.agree.header-method-accepts")
-	_, _, ierr := DecodeHeaderAndFileID(bytes.NewReader(file))
+	_, _, ierr := DecodeHeaderAndFileID(rd())
 	vAssert(ierr == nil, "C04.agree.headerandfileid-accepts")
 	vReached("end")
 }
